@@ -53,4 +53,20 @@ PROPS["C03"] = dict(
     assumptions=["every parser call chain is a path of the extracted static call graph"],
 )
 
+PROPS["C13"] = dict(
+    lean=["SqlVerif.Props.C13"],
+    namespaces=["SqlVerif.Props.C13"],
+    required=["SqlVerif.Props.C13.trailing_comma_noop", "SqlVerif.Props.C13.option_inert",
+              "SqlVerif.Props.C13.sep0_empty", "SqlVerif.Props.C13.projection_flag_restored",
+              "SqlVerif.Props.C13.option_off_comma_continues", "SqlVerif.Props.C13.parseIdent_local"],
+    corr=["lists"],
+    unique_output={"lists": False},
+    oracle=["C13"],
+    level_text="Proved in Lean for every token type, every classification into commas and list-ending tokens, every element parser that is local on the list's elements, and every fuel: with the option on, parse_comma_separated returns the same values and leaves the cursor at the same token for `e1, ..., en, <end>` and `e1, ..., en <end>`; without a trailing comma the option is inert unless an element after a comma begins with a list-ending token; parse_comma_separated0 and the option flip of parse_projection are covered. The model of the three helpers is tied to the code by an exhaustive differential (all token sequences up to length 4/5 over a 13-letter alphabet x option on/off, real pub API driven on token vectors; the end set RESERVED_FOR_COLUMN_ALIAS is tabulated from the running crate). Whole-grammar: the parser reports every list it parsed (cfg hook), a comma is inserted at each reported list end and before each bracket closer, and the option is toggled on every accepted corpus text.",
+    level_note="Trusted: Lean kernel; the hand-written model of the helpers (validated exhaustively on short sequences only); locality of the real element parsers is a hypothesis of the theorem, checked by the insertion oracle on corpus texts only. Lists parsed by ad-hoc comma loops and keywords outside the helper's end set are known findings, not theorems.",
+    technique="Lean 4 generic list theorem + exhaustive helper differential + hook-driven trailing-comma insertion oracle",
+    trusted_base=["Model/Lists.lean mirrors is_parse_comma_separated_end / parse_comma_separated / parse_comma_separated0 / parse_projection"],
+    assumptions=["element parsers are local on list elements (hypothesis LocalOn)"],
+)
+
 NOT_CLAIMED = {}
